@@ -14,6 +14,16 @@ class LargeNumberError(ValueError):
     pass
 
 
+def _shared_bounds(fcn, bounds_dict):
+    """a bound given for a tied name applies to the shared variable (first name of the tie)"""
+    bounds_dict = dict(bounds_dict)
+    for grp in getattr(fcn.vm, "same_list", []):
+        for name in grp[1:]:
+            if name in bounds_dict and grp[0] not in bounds_dict:
+                bounds_dict[grp[0]] = bounds_dict[name]
+    return bounds_dict
+
+
 def fit_minuit(fcn, bounds_dict={}, hesse=True, minos=False, **kwargs):
     try:
         import iminuit
@@ -29,6 +39,7 @@ def fit_minuit(fcn, bounds_dict={}, hesse=True, minos=False, **kwargs):
     :param minos:
     :return:
     """
+    bounds_dict = _shared_bounds(fcn, bounds_dict)
     if int(iminuit.__version__[0]) < 2:
         return fit_minuit_v1(
             fcn, bounds_dict=bounds_dict, hesse=hesse, minos=minos, **kwargs
@@ -210,6 +221,7 @@ def fit_scipy(
     :return:
     """
     gtol *= grad_scale
+    bounds_dict = _shared_bounds(fcn, bounds_dict)
     args_name = fcn.vm.trainable_vars
     x0 = []
     bnds = []
